@@ -29,3 +29,10 @@ Definition crc_update (a : crc_alg) (reg : N) (bs : list byte) : N := fold_left 
 Definition crc_finalize (a : crc_alg) (reg : N) : N :=
   N.lxor (if c_refout a then reflect_bits (N.to_nat (c_width a)) reg else reg) (c_xorout a).
 Definition crc (a : crc_alg) (bs : list byte) : N := crc_finalize a (crc_update a (crc_init_reg a) bs).
+
+(* the parameters the detection theorems need: a width of at least one bit, parameters within
+   the width, and a generator polynomial with a non-zero constant term (every catalogue
+   algorithm has one).  Evaluated on the algorithms the driver instantiates. *)
+Definition alg_okb (a : crc_alg) : bool :=
+  (1 <=? c_width a) && (c_poly a <? 2 ^ c_width a) && (c_init a <? 2 ^ c_width a) && (c_xorout a <? 2 ^ c_width a)
+  && N.odd (c_poly a).
